@@ -49,6 +49,12 @@ type Call struct {
 	Name string
 	Node string
 	Task *simrt.Task
+	// filled by OpE
+	Err      error
+	Returned bool
+	T0, T1   time.Time // simulated clock at call and return
+	S0, S1   int       // scheduling step at call and return
+	ChID     uint64
 	// AllowBlocked: call is allowed to be still blocked at end (e.g. deliberately parked seam)
 	AllowBlocked bool
 }
@@ -81,6 +87,19 @@ func (r *RunCtx) Chance(num, den int) bool { return r.S.Intn(den) < num }
 func (r *RunCtx) Op(node, name string, f func()) *Call {
 	c := &Call{Name: name, Node: node}
 	c.Task = simrt.GoNamed(name, node, f)
+	r.Calls = append(r.Calls, c)
+	return c
+}
+
+// OpE runs f as a tracked application call and records its result and simulated duration.
+func (r *RunCtx) OpE(node, name string, f func() error) *Call {
+	c := &Call{Name: name, Node: node}
+	c.Task = simrt.GoNamed(name, node, func() {
+		c.T0, c.S0 = time.Now(), r.S.Steps
+		c.Err = f()
+		c.T1, c.S1 = time.Now(), r.S.Steps
+		c.Returned = true
+	})
 	r.Calls = append(r.Calls, c)
 	return c
 }
@@ -314,6 +333,43 @@ func ExecRun(t *testing.T, prop string, st Stratum, stIdx int, tape *simrt.Tape,
 				}
 				stk := stacks[c.Task.ID]
 				frame := firstLibFrameOf(stk)
+				// who holds the lock it waits for?
+				victimOf := ""
+				hs := simrt.HoldersOf(c.Task)
+				// follow the wait-for chain to its root (or detect a cycle)
+				seen := map[*simrt.Task]bool{c.Task: true}
+				cycle := false
+				for len(hs) > 0 {
+					nxt := simrt.HoldersOf(hs[0])
+					if len(nxt) == 0 {
+						break
+					}
+					if seen[hs[0]] {
+						cycle = true
+						break
+					}
+					seen[hs[0]] = true
+					hs = nxt
+				}
+				if cycle {
+					victimOf = "lock-cycle:"
+				}
+				if len(hs) > 0 {
+					hst := s.StacksOf(hs)
+					for _, h := range hs {
+						hf := firstLibFrameOf(hst[h.ID])
+						victimOf += "lock-held-by:" + hf + "(" + h.BlockOn() + ")"
+						stk += "\n--- lock holder task " + h.ID + " (" + h.Name + ") blocked on " + h.BlockOn() + ":\n" + shortStack(hst[h.ID])
+					}
+				}
+				if strings.Contains(strings.ToLower(c.Name), "close") {
+					r.Fail("C09", "close-never-returned", frame, fmt.Sprintf("close call %s on %s (task %s) had not returned at quiescence after settle; blocked at %s\n%s", c.Name, c.Node, c.Task.ID, frame, shortStack(stk)))
+				}
+				if victimOf != "" {
+					// the root cause is the task that holds the lock for ever; name it, not the victim
+					r.Fail("C20", "call-never-returned", victimOf, fmt.Sprintf("call %s on %s (task %s) had not returned at quiescence after settle: it waits for a lock that is never released\n%s", c.Name, c.Node, c.Task.ID, shortStack(stk)))
+					continue
+				}
 				r.Fail("C20", "call-never-returned", callClass(c.Name)+"|"+frame+"|"+c.Task.BlockOn(),
 					fmt.Sprintf("call %s on %s (task %s) had not returned at quiescence after settle; blocked on %s at %s\n%s", c.Name, c.Node, c.Task.ID, c.Task.BlockOn(), frame, shortStack(stk)))
 			}
